@@ -89,7 +89,10 @@ func (p *peerPubSub) TopicSubscribe(_ context.Context, topic string) (iface.PubS
 
 func (t *simTopic) Topic() string { return t.topic }
 
-func (t *simTopic) Peers(context.Context) ([]peer.ID, error) {
+func (t *simTopic) Peers(ctx context.Context) ([]peer.ID, error) {
+	if _, err := t.ps.net.Gates.Pass(ctx, "topic.peers", t.ps.net.nameOf(t.self), t.topic); err != nil {
+		return nil, err
+	}
 	t.ps.mu.Lock()
 	defer t.ps.mu.Unlock()
 	var out []peer.ID
